@@ -371,7 +371,6 @@ func fallbackValueOK(v ssa.Value, target ssa.Value) bool {
 	return !dep(v, 0)
 }
 
-
 // c17StringTransform: K5 — a string-valued accessor returns the decoded string itself, or the decoded string
 // with trailing NULs removed (strings.TrimRight(s, "\x00"): the documented tolerance for NUL-terminated
 // names), possibly through an in-module helper whose body is exactly one of these. Any other post-processing
